@@ -76,6 +76,35 @@ theorem lfq_sample_equivariant {σ : Nat → Nat} (hσ : Function.Injective σ) 
     fun i j => ratio_relabel hcol i j,
     fun s => ⟨sumInt_relabel hσ c l s, pepCount_relabel hσ c l s⟩⟩
 
+/-- "permutes with the samples" (whole pipeline, stage B specified): let `σ` permute the samples
+    `0 … n-1`, the FastLFQ graph (if any) be transported by `σ`, and the median ratio of every valid
+    pair whose orientation is flipped by `σ` be antisymmetric (`ratio j i = (ratio i j)⁻¹` — true for an
+    odd number of shared peptides, `ratio_antisymm_of_odd`; false in general for an even number, the known
+    finding `lfq-even-median-orientation`).  Then for every least-squares solution `y` of the original
+    system the relabelled vector `y'` (`y' (σ s) = y s`) is a least-squares solution of the system built
+    from the relabelled input, and the LFQ intensities obtained from it by zeroing and `_scaleEqualSum`
+    are the original ones, permuted: `lfq' (σ s) = lfq s`. -/
+theorem lfq_permutes_with_samples {σ : Nat → Nat} (hσ : Function.Injective σ) (o : Opts)
+    (hp : ((List.range o.n).map σ).Perm (List.range o.n)) (l : List Prec)
+    (hanti : ∀ e ∈ pairs o.minRatios o.n o.graph o.minSamples (column (selected o.cutoff l)),
+      σ e.2 < σ e.1 →
+        ratio (column (selected o.cutoff l)) e.2 e.1 = (ratio (column (selected o.cutoff l)) e.1 e.2)⁻¹)
+    (y y' : Nat → ℝ) (hy : ∀ s, y' (σ s) = y s)
+    (hls : IsLeastSquares (stageA o l).eqs (stageA o l).system y) :
+    IsLeastSquares (stageA (relabelOpts σ o) (l.map (relabel σ))).eqs
+      (stageA (relabelOpts σ o) (l.map (relabel σ))).system y' ∧
+    ∀ s, lfq o.n (stageA (relabelOpts σ o) (l.map (relabel σ))).system.zeroCols
+          (((stageA (relabelOpts σ o) (l.map (relabel σ))).total : Rat) : ℝ) (fun t => Real.exp (y' t)) (σ s) =
+        lfq o.n (stageA o l).system.zeroCols (((stageA o l).total : Rat) : ℝ) (fun t => Real.exp (y t)) s := by
+  refine ⟨isLeastSquares_relabel hσ o hp l hanti y y' hy hls, fun s => ?_⟩
+  have hcol : ∀ s, column (selected o.cutoff (l.map (relabel σ))) (σ s) = column (selected o.cutoff l) s :=
+    fun s => column_relabel hσ o.cutoff l s
+  have htot : (stageA (relabelOpts σ o) (l.map (relabel σ))).total = (stageA o l).total :=
+    total_relabel hσ o.cutoff l
+  rw [htot]
+  exact lfq_relabel hσ hp (zeroCols_relabel_perm hσ hp o.minRatios o.graph o.minSamples hcol) _ _ _
+    (fun t => by rw [hy]) s
+
 /-- "scales with the input" (stage A): multiplying every intensity by `c > 0` multiplies the intensity
     matrix and the total by `c` and changes nothing else — same valid pairs, same median ratios, same
     stabilisation weights and summed-intensity ratios, same linear system. -/
@@ -102,6 +131,21 @@ theorem lfq_scales {c : Rat} (hc : 0 < c) (o : Opts) (l : List Prec) :
 theorem lfq_scales_final (n : Nat) (zero : List Nat) (c tot : Rat) (v : Nat → Rat) (hv : ∀ s, 0 ≤ v s)
     (s : Nat) (hs : s < n) : lfq n zero (c * tot) v s = c * lfq n zero tot v s :=
   lfq_scale_total n zero c tot v hv s hs
+
+/-- "scales with the input" (whole pipeline, stage B specified): the scaled input has the same linear
+    system, hence the same least-squares solutions, and every LFQ intensity obtained from a solution `y`
+    is multiplied by `c`. -/
+theorem lfq_scales_pipeline {c : Rat} (hc : 0 < c) (o : Opts) (l : List Prec) (y : Nat → ℝ) :
+    (IsLeastSquares (stageA o (l.map (scaleP c))).eqs (stageA o (l.map (scaleP c))).system y ↔
+      IsLeastSquares (stageA o l).eqs (stageA o l).system y) ∧
+    ∀ s, s < o.n →
+      lfq o.n (stageA o (l.map (scaleP c))).system.zeroCols (((stageA o (l.map (scaleP c))).total : Rat) : ℝ)
+          (fun t => Real.exp (y t)) s =
+        (c : ℝ) * lfq o.n (stageA o l).system.zeroCols (((stageA o l).total : Rat) : ℝ) (fun t => Real.exp (y t)) s := by
+  rw [lfq_scales hc o l]
+  refine ⟨Iff.rfl, fun s hs => ?_⟩
+  simp only [Rat.cast_mul]
+  exact lfq_scale_total o.n _ (c : ℝ) _ _ (fun t => (Real.exp_pos (y t)).le) s hs
 
 /-- "the LFQ intensities sum to the summed intensity of the peptides used" (`_scaleEqualSum`): whenever
     some LFQ intensity is positive, they add up to the total.  `v` is the exponentiated solution
@@ -239,6 +283,14 @@ example : ((List.range 3).map exσ).Perm (List.range 3) := by decide
 
 example : column (selected (1/100) (exL.map (relabel exσ))) 2 = column (selected (1/100) exL) 0 :=
   (lfq_sample_equivariant exσ_inj (n := 3) (by decide) (1/100) 2 none 10 exL).1 0
+
+/-- `lfq_permutes_with_samples` on the example: both peptides are quantified in all three samples, so every
+    pair shares 2 peptides (even) — but the data are consistent, all ratios of a pair are equal and the
+    median is antisymmetric anyway: the hypothesis `hanti` holds for the swap of samples 0 and 2 -/
+example : ∀ e ∈ pairs exO.minRatios exO.n exO.graph exO.minSamples (column (selected exO.cutoff exL)),
+    exσ e.2 < exσ e.1 →
+      ratio (column (selected exO.cutoff exL)) e.2 e.1 = (ratio (column (selected exO.cutoff exL)) e.1 e.2)⁻¹ := by
+  decide +kernel
 
 /-- the orientation of a pair matters for an even number of shared peptides: the median of the ratios
     1 and 4 is 5/2, the median of the inverse ratios is 5/8, not 2/5 (known finding
